@@ -96,14 +96,14 @@ func loadWorld(repo string) *World {
 }
 
 type FuncReport struct {
-	Key      string
-	Status   string // ok | outside_subset | contract_does_not_bind | missing
-	Reason   string
-	Obs      []*Obligation
-	NLoops   int
-	Trusted  []string
-	File     string
-	Lemmas   []string
+	Key     string
+	Status  string // ok | outside_subset | contract_does_not_bind | missing
+	Reason  string
+	Obs     []*Obligation
+	NLoops  int
+	Trusted []string
+	File    string
+	Lemmas  []string
 }
 
 // verifyFunc encodes one function and returns its obligations (unsolved).
@@ -240,4 +240,3 @@ func fmtModel(m map[string]string) string {
 	}
 	return strings.Join(out, " ")
 }
-
